@@ -518,6 +518,15 @@ impl Node {
     }
 
     async fn settle(&self) {
+        // hook H5: wait until every write request handed to a persister task has been carried out (not while
+        // the schedule point is held - the task waits there; at most 3 s: a task closed with requests left
+        // never reports them), then until the data directory stops changing
+        if !server::verif::is_held("persister-write") {
+            let t0 = std::time::Instant::now();
+            while server::verif::pending_writes() > 0 && t0.elapsed().as_secs() < 3 {
+                tokio::time::sleep(std::time::Duration::from_millis(2)).await;
+            }
+        }
         let mut last = u64::MAX;
         let mut stable = 0;
         while stable < 5 {
